@@ -178,11 +178,40 @@ def _case(args):
             continue
         rec['compared'] += 1
         if outs[0] != outs[1]:
-            rec['diffs'].append({'text': text, 'ebnf': outs[0] if outs[0] == 'reject' else outs[0][:3], 'desugared': outs[1] if outs[1] == 'reject' else outs[1][:3]})
+            lang = (outs[0] == 'reject') != (outs[1] == 'reject')
+            rec['diffs'].append({'text': text, 'ebnf': outs[0] if outs[0] == 'reject' else outs[0][:3], 'desugared': outs[1] if outs[1] == 'reject' else outs[1][:3],
+                                 'language_differs': lang,
+                                 # every tree lark returns is the shaping of a derivation of the grammar as written
+                                 'sound': (not lang) and set(outs[0]) <= set(outs[1]),
+                                 'unique': (not lang) and len(outs[1]) == 1})
+    rec['f24_region'] = empty_alt_region(rules)
     return rec
 
 
-def check(ctx, res, salt, n_quick, n_thorough, big=False, label='EBNF'):
+def opnull(e):
+    """can the expression vanish through its operators alone (? * ~0.. and groups of such) - i.e. does lark's EBNF expansion give its owner a literally empty alternative"""
+    k = e[0]
+    if k in ('t', 'nt', 'lit'): return False
+    if k == 'seq': return all(opnull(x) for x in e[1])
+    if k == 'alt': return any(opnull(x) for x in e[1])
+    if k in ('opt', 'star'): return True
+    if k == 'plus': return opnull(e[1])
+    if k == 'rep': return e[2] == 0 or opnull(e[1])
+    raise ValueError(k)
+
+
+def empty_alt_region(rules):
+    """region of finding F24: two alternatives of one rule with different aliases can both vanish; Grammar.compile keeps only the first empty alternative"""
+    for n, mod, alts in rules:
+        aliases = {a for e, a in alts if opnull(e)}
+        if len(aliases) > 1:
+            return True
+    return False
+
+
+def check(ctx, res, salt, n_quick, n_thorough, big=False, label='EBNF', exact=False):
+    """exact=False (C03, C09): same language, every tree of the EBNF grammar is a tree of the desugared one, equal when that one is unique.
+    exact=True (C04): the sets of trees under ambiguity='explicit' are equal, outside the region of finding F24."""
     from common import pmap, tier_scale, exc_in_lark, InfraError
     rng = random.Random(ctx['seed'] * 1000003 + salt)
     N = tier_scale(ctx['tier'], n_quick, n_thorough) * (3 if ctx['deepen'] else 1)
@@ -201,6 +230,10 @@ def check(ctx, res, salt, n_quick, n_thorough, big=False, label='EBNF'):
         if rec['builds'][0] != rec['builds'][1] and rec['builds'][0] == 'err':
             res.count('ebnf_only_original_rejected')      # e.g. "Rules defined twice" for expansions that coincide: documented
         for d in rec['diffs']:
+            if not exact and d['sound'] and not d['unique']:
+                res.count('ebnf_fewer_trees_than_desugared_(completeness_is_C04)'); continue
+            if exact and d['sound'] and rec['f24_region']:
+                res.count('ebnf_missing_derivation_in_region_F24'); continue
             res.violation('the %s grammar and its hand-desugared plain-BNF form (explicit inlined helper rules) disagree on an input: language or shaped trees differ' % label,
                           {'ebnf': rec['ebnf'], 'desugared': rec['desugared'], 'keep_all_tokens': rec['keep_all_tokens'], 'detail': d})
 
